@@ -219,7 +219,8 @@ class C07:
         strata, types, subsets = {}, {}, {}
         sig = set()
         for l in lines:
-            strata[l.tag] = strata.get(l.tag, 0) + 1 if not l.tag.startswith('fixed=') else strata.get('fixed-subsets', 0) + 1
+            tg = 'fixed-subsets' if l.tag.startswith('fixed=') else l.tag
+            strata[tg] = strata.get(tg, 0) + 1
             types[l.grp] = types.get(l.grp, 0) + 1
             if l.tag.startswith('fixed='):
                 subsets.setdefault(l.grp, set()).add(l.tag)
@@ -236,7 +237,7 @@ class C07:
 
     # ------------------------------------------------------------------ entry points
     def explore(self, ctx):
-        n = 9 if ctx['tier'] == 'quick' else 72
+        n = 14 if ctx['tier'] == 'quick' else 70
         return self.check_lines(ctx, self.gen_lines(ctx, n))
 
     def search(self, ctx, broken):
